@@ -6,6 +6,7 @@ import VelaVerif.Handlers.Util
 `arena align=<a> scratch=<idx|-1> fast=<idx|-1> inputs=<i>,… outputs=<i>,… tensors=<size>:<offset>:<var>,… ops=<E|C>:<builtin>:<in>/<in>…:<out>/<out>…[:<w>.<w>.…];…`
 (optional fifth field of an Ethos-U operator: the words of its command stream, decoded here to find what it writes)
 answer: `conflicts=<n> <a>-<b>… | misaligned=<n> <idx>… | scratch=<n> <msgs> | required=<bytes>`
+`arenaplans <n>`  number of OfflineMemoryAllocation entries of a file; answer `1` iff exactly one
 -/
 namespace VelaVerif.Handlers.Arena
 open VelaVerif VelaVerif.Handlers VelaVerif.Arena
@@ -57,6 +58,9 @@ def handle : List String → Option String
     some (s!"conflicts={v.conflicts.length} " ++ " ".intercalate (v.conflicts.take 4 |>.map fun (a, b) => s!"{a}-{b}") ++
       s!" | misaligned={v.misaligned.length} " ++ joinNats (v.misaligned.take 6) ++
       s!" | scratch={v.scratch.length} " ++ " ~ ".intercalate (v.scratch.take 2) ++ s!" | required={v.required}")
+  | ["arenaplans", n] => do
+    -- number of `OfflineMemoryAllocation` metadata entries of one file: exactly one
+    some (boolStr (onePlan (← parseNat? n)))
   | ["reported", req, rep] => do
     -- reported figure (bytes) is at least the extent the plan requires
     some (boolStr (decide ((← parseNat? req) ≤ (← parseNat? rep))))
